@@ -10,7 +10,9 @@ from .model import FuncInfo, norm, walk_no_nested
 NUMERIC_HINTS = ('int', 'float', 'str', 'complex', 'Number')
 
 
-def _optional_numeric_params(fn: FuncInfo) -> Set[str]:
+def _optional_numeric_params(fn: FuncInfo, plain_float: bool = False) -> Set[str]:
+    """parameters annotated Optional[<numeric or str>] (or numeric with a None default); with plain_float also the
+    parameters annotated exactly `float`: the truth value of a real quantity is `!= 0.0`, which singles out one legal value."""
     a = fn.node.args
     pos = a.posonlyargs + a.args
     defaults = dict(zip([x.arg for x in pos[len(pos) - len(a.defaults):]], a.defaults))
@@ -24,17 +26,19 @@ def _optional_numeric_params(fn: FuncInfo) -> Set[str]:
         none_default = isinstance(d, ast.Constant) and d.value is None
         if ('Optional[' in ann or 'None' in ann or none_default) and any(t in ann for t in NUMERIC_HINTS) and 'bool' not in ann:
             opt.add(p.arg)
+        elif plain_float and ann == 'float':
+            opt.add(p.arg)
     return opt
 
 
-def falsy_zero_tests(fn: FuncInfo, lookups: bool = False) -> Iterator[Tuple[ast.AST, str]]:
+def falsy_zero_tests(fn: FuncInfo, lookups: bool = False, plain_float: bool = False) -> Iterator[Tuple[ast.AST, str]]:
     """Truthiness tests (`if p` / `if not p` / `p or default` / `x if p else y`) on
       * parameters annotated Optional[<numeric or str>] (or numeric with a None default), while they still hold the raw
         argument (uses in or before the first statement that rebinds them), and
       * (lookups=True) values obtained with `<mapping>.get(key)` without a default (directly, or through a local bound
         once to such a call):
     they conflate the legal value 0 (or '') with None / absence."""
-    opt = _optional_numeric_params(fn)
+    opt = _optional_numeric_params(fn, plain_float)
     order = {id(s): i for i, s in enumerate(stmts_in_order(fn))}
     first_rebind = {}
     got = {}
@@ -95,7 +99,7 @@ def _is_plain_get(v) -> bool:
     return isinstance(v, ast.Call) and isinstance(v.func, ast.Attribute) and v.func.attr == 'get' and len(v.args) == 1 and not v.keywords
 
 
-def check_falsy_zero(ctx, rule: str, module_paths, floor: int) -> int:
+def check_falsy_zero(ctx, rule: str, module_paths, floor: int, plain_float: bool = False) -> int:
     """One instance per function of the modules that has an Optional numeric/str parameter."""
     M = ctx.model
     ctx.rule(rule, 'Optional numeric parameters are tested with `is None`, never by truthiness (`if p`, `p or default`): 0 is a legal '
@@ -107,15 +111,15 @@ def check_falsy_zero(ctx, rule: str, module_paths, floor: int) -> int:
         for c in mod.classes.values():
             fns += list(c.methods.values()) + list(c.setters.values())
         for fn in fns:
-            if not _optional_numeric_params(fn):
+            if not _optional_numeric_params(fn, plain_float):
                 continue
             construct = fn.qualname
             ctx.instance(rule, construct)
             n += 1
-            hits = list(falsy_zero_tests(fn))
+            hits = list(falsy_zero_tests(fn, plain_float=plain_float))
             ctx.obligation(rule, construct, not hits, {'tested_by_truthiness': [h[1] for h in hits]} if hits else None, nontrivial=bool(hits))
             for node, name in hits[:1]:
-                ctx.violation(rule, construct, 'parameter `%s` (Optional numeric) is tested by truthiness in `%s`: the legal value 0 is '
+                ctx.violation(rule, construct, 'parameter `%s` (numeric) is tested by truthiness in `%s`: the legal value 0 is '
                               'silently replaced by the default' % (name, norm(node.test if hasattr(node, 'test') else node)[:60]),
                               fn.path, node.lineno, operand=name)
     return n
@@ -399,4 +403,617 @@ def check_filtered_positions(ctx, rule: str, module_paths, floor: int = 0) -> in
                 for node, var, lst in hits[:1]:
                     ctx.violation(rule, construct, '`%s` is subscripted with `%s`, a position in the filtered list `%s`: the filter of user %s[i] '
                                   'is applied to user i' % (norm(node.value), var, lst, lst), fn.path, node.lineno, operand='position:' + var)
+    return n
+
+
+# ---------------------------------------------------------------------------------------------------------------
+def last_iteration_leaks(fn: FuncInfo):
+    """(load node, name, loop): a name that is bound ONLY inside the body of one loop L1, to a value that depends on L1's
+    iteration variable (a per-iteration quantity), where L1 is never left early (no break / return inside it) and the
+    binding is not the running-extremum idiom, and that is read inside a DIFFERENT, later loop.  What the later loop
+    reads on every one of its iterations is the value of the LAST iteration of L1 that happened to bind the name: a
+    per-element quantity applied to every element."""
+    stmts = stmts_in_order(fn)
+    order = {id(s): i for i, s in enumerate(stmts)}
+    loops = [s for s in stmts if isinstance(s, ast.For)]
+    if len(loops) < 2:
+        return
+    comp_scoped = set()
+    for x in ast.walk(fn.node):
+        if isinstance(x, (ast.ListComp, ast.SetComp, ast.DictComp, ast.GeneratorExp)):
+            for g in x.generators:
+                for t in ast.walk(g.target):
+                    if isinstance(t, ast.Name):
+                        comp_scoped.add(id(t))
+    all_stores = {}
+    for x in ast.walk(fn.node):
+        if isinstance(x, ast.Name) and isinstance(x.ctx, ast.Store) and id(x) not in comp_scoped:
+            all_stores.setdefault(x.id, []).append(x)
+    for p in fn.params:
+        all_stores.setdefault(p, []).append(None)
+    for L in loops:
+        inside = {id(x) for x in ast.walk(L)}
+        if any(isinstance(x, (ast.Break, ast.Return)) for x in ast.walk(L)):
+            continue
+        if any(id(L) in {id(y) for y in ast.walk(o)} for o in loops if o is not L):
+            continue                                              # only outermost loops are compared with each other
+        body_ids = {id(x) for b in L.body for x in ast.walk(b)}
+        per_iter = {n for n, sts in all_stores.items() if sts and all(s is not None and id(s) in body_ids for s in sts)}
+        if not per_iter:
+            continue
+        # dependence on the iteration variable, through the locals of the body
+        dep = {t.id for t in ast.walk(L.target) if isinstance(t, ast.Name)}
+        changed = True
+        assigns = [a for b in L.body for a in ast.walk(b) if isinstance(a, (ast.Assign, ast.AugAssign, ast.AnnAssign)) and getattr(a, 'value', None) is not None]
+        while changed:
+            changed = False
+            for a in assigns:
+                tg = a.targets if isinstance(a, ast.Assign) else [a.target]
+                names = {t.id for g in tg for t in ast.walk(g) if isinstance(t, ast.Name) and isinstance(t.ctx, ast.Store)}
+                if names - dep and any(isinstance(x, ast.Name) and x.id in dep for x in ast.walk(a.value)):
+                    dep |= names
+                    changed = True
+        per_iter &= dep
+        # running extremum: bound under an `if` whose test reads an accumulator that lives before the loop and is updated in the same branch
+        def running_extremum(name):
+            for c in (x for b in L.body for x in ast.walk(b) if isinstance(x, ast.If)):
+                cids = {id(x) for x in ast.walk(c)}
+                if not all(id(s) in cids for s in all_stores[name]):
+                    continue
+                test_names = {x.id for x in ast.walk(c.test) if isinstance(x, ast.Name)}
+                for acc in test_names:
+                    sts = all_stores.get(acc, [])
+                    if any(s is None or id(s) not in inside for s in sts) and any(s is not None and id(s) in cids for s in sts):
+                        return True
+            return False
+        per_iter = {n for n in per_iter if not running_extremum(n)}
+        if not per_iter:
+            continue
+        for L2 in loops:
+            if L2 is L or order[id(L2)] < order[id(L)] or id(L2) in inside:
+                continue
+            rebound = {t.id for b in [L2] for x in ast.walk(b) for t in [x] if isinstance(t, ast.Name) and isinstance(t.ctx, ast.Store) and id(t) not in comp_scoped}
+            for x in ast.walk(L2):
+                if isinstance(x, ast.Name) and isinstance(x.ctx, ast.Load) and x.id in per_iter and x.id not in rebound:
+                    encl_comp = False
+                    yield x, x.id, L
+
+
+def check_per_iteration_leaks(ctx, rule: str, module_paths, floor: int = 0) -> int:
+    ctx.rule(rule, 'a per-iteration quantity (bound only inside one loop, from that loop\'s iteration variable) is never read by a different, '
+                   'later loop (which would see the last iteration\'s value for every element)', floor=floor)
+    M = ctx.model
+    n = 0
+    for path in module_paths:
+        mod = M.module(path)
+        fns = [f for c in mod.classes.values() for f in c.methods.values()] + list(mod.functions.values())
+        for fn in fns:
+            loops = [l for l in walk_no_nested(fn.node) if isinstance(l, ast.For)]
+            if len(loops) < 2:
+                continue
+            hits = list(last_iteration_leaks(fn))
+            construct = fn.qualname
+            ctx.instance(rule, construct)
+            n += 1
+            ctx.obligation(rule, construct, not hits, {'leaks': sorted({h[1] for h in hits})} if hits else None, nontrivial=bool(hits))
+            for node, name, L in hits[:1]:
+                ctx.violation(rule, construct, '`%s` is bound only inside the loop at line %d (a per-iteration value derived from `%s`) and read '
+                              'inside the later loop at line %d: every iteration there sees the value of the last iteration that bound it'
+                              % (name, L.lineno, norm(L.target), node.lineno), fn.path, node.lineno, operand='leak:' + name)
+    return n
+
+
+# ---------------------------------------------------------------------------------------------------------------
+NARROW_INT = {'uint8': 8, 'int8': 7, 'uint16': 16, 'int16': 15, 'ubyte': 8, 'byte': 7, 'ushort': 16, 'short': 15}
+NARROW_INT_CODES = {'u1': 8, 'i1': 7, 'u2': 16, 'i2': 15, 'B': 8, 'b': 7, 'H': 16, 'h': 15}
+BIT_CONSUMERS = {'np.unpackbits', 'np.packbits', 'numpy.unpackbits', 'numpy.packbits'}
+
+
+def _narrow_bits(e) -> Optional[int]:
+    """bit width when `e` spells a narrow integer dtype (np.uint8, 'uint8', np.dtype('u1'), ...)."""
+    if isinstance(e, ast.Constant) and isinstance(e.value, str):
+        v = e.value.lstrip('<>=|')
+        return NARROW_INT.get(v, NARROW_INT_CODES.get(v))
+    if isinstance(e, ast.Attribute) and e.attr in NARROW_INT:
+        return NARROW_INT[e.attr]
+    if isinstance(e, ast.Call) and norm(e.func) in ('np.dtype', 'numpy.dtype') and e.args:
+        return _narrow_bits(e.args[0])
+    return None
+
+
+def narrow_index_ranges(fn: FuncInfo):
+    """(node, bits, kind): an integer RANGE or a cast of computed integers is given a narrow integer dtype although nothing
+    in the expression bounds its values: `np.arange(stop, dtype=np.uint8)` wraps around for stop > 256, `.astype(np.uint8)`
+    of computed indexes drops their high bits.  kind is 'range' (definite: the stop is not a literal that fits) or 'cast'
+    (the cast value is not visibly a bit/boolean array and is not consumed by packbits/unpackbits)."""
+    parents = {}
+    for p in ast.walk(fn.node):
+        for c in ast.iter_child_nodes(p):
+            parents[id(c)] = p
+    for n in walk_no_nested(fn.node):
+        if not isinstance(n, ast.Call):
+            continue
+        f = norm(n.func)
+        dt = next((k.value for k in n.keywords if k.arg == 'dtype'), None)
+        if f in ('np.arange', 'numpy.arange', 'np.linspace', 'numpy.linspace'):
+            bits = _narrow_bits(dt) if dt is not None else None
+            if bits is None:
+                continue
+            stops = n.args[:2] if len(n.args) >= 2 else n.args[:1]
+            stop = stops[-1] if stops else None
+            if isinstance(stop, ast.Constant) and isinstance(stop.value, int) and stop.value <= 2 ** bits:
+                continue
+            yield n, bits, 'range'
+        elif isinstance(n.func, ast.Attribute) and n.func.attr == 'astype' and n.args and _narrow_bits(n.args[0]) is not None:
+            par = parents.get(id(n))
+            if isinstance(par, ast.Call) and norm(par.func) in BIT_CONSUMERS:
+                continue
+            src = n.func.value
+            if isinstance(src, ast.Compare) or (isinstance(src, ast.BinOp) and isinstance(src.op, ast.BitAnd)
+                                                and isinstance(src.right, ast.Constant) and src.right.value == 1):
+                continue
+            yield n, _narrow_bits(n.args[0]), 'cast'
+
+
+def check_narrow_index_ranges(ctx, rule: str, module_paths, floor: int = 0) -> int:
+    ctx.rule(rule, 'no integer range / computed index array is given an integer dtype narrower than the values it must hold '
+                   '(np.arange(n, dtype=uint8) wraps for n > 256; an index cast to a narrow dtype loses its high bits)', floor=floor)
+    M = ctx.model
+    n = 0
+    deferred = []
+    for path in module_paths:
+        mod = M.module(path)
+        fns = [f for c in mod.classes.values() for f in c.methods.values()] + list(mod.functions.values())
+        for fn in fns:
+            sites = [x for x in walk_no_nested(fn.node) if isinstance(x, ast.Call) and (norm(x.func) in ('np.arange', 'numpy.arange')
+                     or (isinstance(x.func, ast.Attribute) and x.func.attr == 'astype'))]
+            if not sites:
+                continue
+            construct = fn.qualname
+            ctx.instance(rule, construct)
+            n += 1
+            hits = list(narrow_index_ranges(fn))
+            definite = [h for h in hits if h[2] == 'range']
+            ctx.obligation(rule, construct, not definite, {'narrow': [(norm(h[0])[:50], h[1]) for h in hits]} if hits else None, nontrivial=True)
+            for node, bits, kind in definite[:1]:
+                ctx.violation(rule, construct, '`%s` builds an integer range in a %d-bit dtype but its length is not a literal that fits: '
+                              'beyond %d values the entries - and every arithmetic result derived from them, which stays in that dtype - wrap around, so distinct indexes collide' % (norm(node)[:60], bits, 2 ** bits),
+                              fn.path, node.lineno, operand='narrow-range')
+            deferred += [(fn, h) for h in hits if h[2] == 'cast']
+    ctx._narrow_casts = deferred
+    return n
+
+
+# ---------------------------------------------------------------------------------------------------------------
+def index_span_slices(fn: FuncInfo, producers=('get_pack_indexes',)):
+    """(subscript node, index-set name): a name bound to the result of an index-SET producer is used only through its end
+    points to build a contiguous slice (`x[I[0]:I[-1] + 1]`, `x[I.min():I.max() + 1]`, `x[min(I):max(I) + 1]`): the
+    selection then contains every position between the first and the last member, not the members."""
+    sets = set()
+    for n in walk_no_nested(fn.node):
+        if isinstance(n, ast.Assign) and isinstance(n.value, ast.Call) and isinstance(n.value.func, ast.Attribute) \
+                and n.value.func.attr in producers:
+            for t in n.targets:
+                if isinstance(t, ast.Name):
+                    sets.add(t.id)
+    # aliases through np.asarray / sorted / list / np.sort
+    changed = True
+    while changed:
+        changed = False
+        for n in walk_no_nested(fn.node):
+            if isinstance(n, ast.Assign) and len(n.targets) == 1 and isinstance(n.targets[0], ast.Name) and n.targets[0].id not in sets:
+                v = n.value
+                if isinstance(v, ast.Call) and norm(v.func) in ('np.asarray', 'np.array', 'sorted', 'list', 'np.sort', 'np.unique', 'np.atleast_1d') \
+                        and v.args and isinstance(v.args[0], ast.Name) and v.args[0].id in sets:
+                    sets.add(n.targets[0].id)
+                    changed = True
+                elif isinstance(v, ast.Name) and v.id in sets:
+                    sets.add(n.targets[0].id)
+                    changed = True
+
+    def endpoint(e) -> Optional[str]:
+        for x in ast.walk(e):
+            if isinstance(x, ast.Subscript) and isinstance(x.value, ast.Name) and x.value.id in sets \
+                    and isinstance(const_value_local(x.slice), int):
+                return x.value.id
+            if isinstance(x, ast.Call):
+                f = norm(x.func)
+                if f in ('min', 'max', 'np.min', 'np.max', 'np.amin', 'np.amax') and x.args and isinstance(x.args[0], ast.Name) and x.args[0].id in sets:
+                    return x.args[0].id
+                if isinstance(x.func, ast.Attribute) and x.func.attr in ('min', 'max') and isinstance(x.func.value, ast.Name) and x.func.value.id in sets:
+                    return x.func.value.id
+        return None
+
+    # endpoint names:  lo = I[0]; hi = I[-1]
+    ends = {}
+    for n in walk_no_nested(fn.node):
+        if isinstance(n, ast.Assign):
+            tg = n.targets[0]
+            if isinstance(tg, ast.Name):
+                e = endpoint(n.value)
+                if e:
+                    ends[tg.id] = e
+            elif isinstance(tg, ast.Tuple) and isinstance(n.value, ast.Tuple) and len(tg.elts) == len(n.value.elts):
+                for t, v in zip(tg.elts, n.value.elts):
+                    e = endpoint(v)
+                    if e and isinstance(t, ast.Name):
+                        ends[t.id] = e
+    for n in walk_no_nested(fn.node):
+        if not isinstance(n, (ast.Subscript, ast.Call)):
+            continue
+        bounds = []
+        if isinstance(n, ast.Subscript):
+            sl = n.slice
+            parts = sl.elts if isinstance(sl, ast.Tuple) else [sl]
+            for p in parts:
+                if isinstance(p, ast.Slice):
+                    bounds.append((p.lower, p.upper))
+        elif norm(n.func) in ('slice', 'range', 'np.arange') and len(n.args) >= 2:
+            bounds.append((n.args[0], n.args[1]))
+        elif norm(n.func) in ('itertools.islice', 'islice') and len(n.args) >= 3:
+            bounds.append((n.args[1], n.args[2]))
+        for lo, hi in bounds:
+            srcs = []
+            for b in (lo, hi):
+                if b is None:
+                    continue
+                e = endpoint(b)
+                if e is None:
+                    for x in ast.walk(b):
+                        if isinstance(x, ast.Name) and x.id in ends:
+                            e = ends[x.id]
+                srcs.append(e)
+            if len(srcs) == 2 and srcs[0] is not None and srcs[0] == srcs[1]:
+                yield n, srcs[0]
+
+
+def const_value_local(e):
+    if isinstance(e, ast.Constant):
+        return e.value
+    if isinstance(e, ast.UnaryOp) and isinstance(e.op, ast.USub) and isinstance(e.operand, ast.Constant):
+        return -e.operand.value
+    return None
+
+
+def check_index_sets_not_spans(ctx, rule: str, module_paths, producers=('get_pack_indexes',), floor: int = 0) -> int:
+    ctx.rule(rule, 'a set of positions returned by %s is consumed as a set (membership / fancy indexing / single member), never through a '
+                   'contiguous slice between its end points (matching positions are strided, not contiguous, unless the fixed '
+                   'parameters happen to vary slowest)' % '/'.join(producers), floor=floor)
+    M = ctx.model
+    n = 0
+    for path in module_paths:
+        mod = M.module(path)
+        fns = [f for c in mod.classes.values() for f in c.methods.values()] + list(mod.functions.values())
+        for fn in fns:
+            if not any(isinstance(x, ast.Call) and isinstance(x.func, ast.Attribute) and x.func.attr in producers for x in walk_no_nested(fn.node)):
+                continue
+            construct = fn.qualname
+            ctx.instance(rule, construct)
+            n += 1
+            hits = list(index_span_slices(fn, producers))
+            ctx.obligation(rule, construct, not hits, {'span': [norm(h[0])[:60] for h in hits]} if hits else None, nontrivial=True)
+            for node, name in hits[:1]:
+                ctx.violation(rule, construct, '`%s` selects the contiguous span between the first and the last member of the index set `%s`: '
+                              'every position in between is included, whether it matches the fixed parameters or not'
+                              % (norm(node)[:70], name), fn.path, node.lineno, operand='span:' + name)
+    return n
+
+
+# ---------------------------------------------------------------------------------------------------------------
+def mapping_attrs(model, cls) -> set:
+    """attributes of cls (over its MRO) that are bound to a dict / OrderedDict / defaultdict display or constructor."""
+    out = set()
+    for c in model.mro(cls):
+        for fn in c.methods.values():
+            sn = fn.self_name
+            if sn is None:
+                continue
+            for n in walk_no_nested(fn.node):
+                if isinstance(n, (ast.Assign, ast.AnnAssign)):
+                    v = n.value
+                    tg = n.targets if isinstance(n, ast.Assign) else [n.target]
+                    is_map = isinstance(v, (ast.Dict, ast.DictComp)) or (isinstance(v, ast.Call) and norm(v.func).split('.')[-1] in ('dict', 'OrderedDict', 'defaultdict'))
+                    if is_map:
+                        for t in tg:
+                            if isinstance(t, ast.Attribute) and isinstance(t.value, ast.Name) and t.value.id == sn:
+                                out.add(t.attr)
+    return out
+
+
+def ordered_mapping_comparisons(fn: FuncInfo, maps: set):
+    """(node, why): inside an equality method, the KEYS (or items / values) of a mapping are compared as a sequence - `list(a.m) ==
+    list(b.m)`, `tuple(a.m.keys()) != ...`, or paired positionally with zip(a.m, b.m).  Two mappings with the same content
+    built in a different order then compare unequal."""
+    def is_mapping_view(e) -> bool:
+        if isinstance(e, ast.Attribute) and e.attr in maps:
+            return True
+        if isinstance(e, ast.Call) and isinstance(e.func, ast.Attribute) and e.func.attr in ('keys', 'items', 'values') and not e.args:
+            return True
+        return False
+
+    def seq_of_mapping(e) -> bool:
+        return isinstance(e, ast.Call) and norm(e.func) in ('list', 'tuple', 'np.array', 'np.asarray') and len(e.args) == 1 and is_mapping_view(e.args[0])
+
+    for n in walk_no_nested(fn.node):
+        if isinstance(n, ast.Compare) and len(n.ops) == 1 and isinstance(n.ops[0], (ast.Eq, ast.NotEq)):
+            a, b = n.left, n.comparators[0]
+            if seq_of_mapping(a) and seq_of_mapping(b):
+                yield n, 'the two key sequences are compared position by position'
+        if isinstance(n, ast.Call) and norm(n.func) == 'zip' and len(n.args) >= 2 and all(is_mapping_view(a) or seq_of_mapping(a) for a in n.args[:2]):
+            yield n, 'the entries of the two mappings are paired by position'
+
+
+# ---------------------------------------------------------------------------------------------------------------
+def floor_block_loops(fn: FuncInfo):
+    """(loop, n, b, covered): a loop that walks a range in blocks - `for k in range(n // b)` with `k * b` / `(k + 1) * b`
+    bounds in its body - runs floor(n / b) times: the last n % b elements are never visited.  `covered` is True when
+    the function also tests or uses `n % b` (a guard that rejects a remainder, or separate handling of the tail)."""
+    from .astutil import single_locals, expand
+    defs = single_locals(fn)
+
+    def key(e):
+        return norm(expand(e, defs)).replace(' ', '')
+
+    mods = set()
+    for x in walk_no_nested(fn.node):
+        if isinstance(x, ast.BinOp) and isinstance(x.op, ast.Mod):
+            mods.add((key(x.left), key(x.right)))
+        if isinstance(x, ast.Call) and norm(x.func) in ('divmod', 'np.divmod') and len(x.args) == 2:
+            mods.add((key(x.args[0]), key(x.args[1])))
+    for loop in walk_no_nested(fn.node):
+        if not (isinstance(loop, ast.For) and isinstance(loop.iter, ast.Call) and norm(loop.iter.func) in ('range', 'np.arange')
+                and isinstance(loop.target, ast.Name)):
+            continue
+        for a in loop.iter.args:
+            ea = expand(a, defs)
+            for x in ast.walk(ea):
+                if not (isinstance(x, ast.BinOp) and isinstance(x.op, ast.FloorDiv)):
+                    continue
+                n, b = x.left, x.right
+                bk = norm(b).replace(' ', '')
+                if isinstance(n, ast.UnaryOp) or bk in norm(n).replace(' ', ''):
+                    continue                                       # -(-n // b), (n + b - 1) // b: ceiling idioms
+                if isinstance(b, ast.Constant) and b.value == 1:
+                    continue
+                # the body steps through the data in units of b
+                k = loop.target.id
+                steps = False
+                for y in ast.walk(loop):
+                    if isinstance(y, ast.BinOp) and isinstance(y.op, ast.Mult):
+                        l, r = key(y.left), key(y.right)
+                        if (bk in (l, r)) and any(isinstance(z, ast.Name) and z.id == k for z in ast.walk(y)):
+                            steps = True
+                if not steps:
+                    continue
+                covered = (norm(n).replace(' ', ''), bk) in mods
+                yield loop, norm(n), norm(b), covered
+
+
+def check_block_loops_cover(ctx, rule: str, module_paths, floor: int = 0) -> int:
+    ctx.rule(rule, 'a loop that processes a range in blocks of b covers all n elements: a floor(n / b) trip count is accompanied by a test / '
+                   'handling of n % b (otherwise the last n % b elements are left unprocessed - uninitialised in an np.empty output)', floor=floor)
+    M = ctx.model
+    cnt = 0
+    for path in module_paths:
+        mod = M.module(path)
+        fns = [f for c in mod.classes.values() for f in c.methods.values()] + list(mod.functions.values())
+        for fn in fns:
+            loops = [l for l in walk_no_nested(fn.node) if isinstance(l, ast.For) and isinstance(l.iter, ast.Call) and norm(l.iter.func) in ('range', 'np.arange')]
+            if not loops:
+                continue
+            construct = fn.qualname
+            ctx.instance(rule, construct)
+            cnt += 1
+            hits = list(floor_block_loops(fn))
+            bad = [h for h in hits if not h[3]]
+            ctx.obligation(rule, construct, not bad, {'block_loops': [(h[1], h[2], 'remainder handled' if h[3] else 'remainder ignored') for h in hits]} if hits else None,
+                           nontrivial=bool(hits))
+            for loop, n, b, _ in bad[:1]:
+                ctx.violation(rule, construct, 'the loop at line %d runs %s // %s times over blocks of %s elements and nothing tests or handles '
+                              '%s %% %s: the last (%s mod %s) elements are never processed' % (loop.lineno, n, b, b, n, b, n, b),
+                              fn.path, loop.lineno, operand='floor-blocks')
+    return cnt
+
+
+# ---------------------------------------------------------------------------------------------------------------
+LIKE_CTORS = {'np.zeros_like', 'np.empty_like', 'np.ones_like', 'np.full_like', 'numpy.zeros_like', 'numpy.empty_like', 'numpy.ones_like', 'numpy.full_like'}
+
+
+def input_typed_containers(fn: FuncInfo):
+    """(call node, container name, parameter): a result container is created with `np.*_like(<parameter>)` and no dtype=, and
+    is then filled by element stores: the container has the CALLER's dtype, so computed real (or complex) values stored
+    into it are truncated whenever the input array is an integer (or real) array."""
+    params = set(fn.params) - {fn.self_name, 'cls'}
+    alias = {p: p for p in params}
+    for n in walk_no_nested(fn.node):
+        if isinstance(n, ast.Assign) and len(n.targets) == 1 and isinstance(n.targets[0], ast.Name) and isinstance(n.value, ast.Name) \
+                and n.value.id in alias and n.targets[0].id not in params:
+            alias[n.targets[0].id] = alias[n.value.id]
+    conts = {}
+    for n in walk_no_nested(fn.node):
+        if isinstance(n, ast.Assign) and len(n.targets) == 1 and isinstance(n.targets[0], ast.Name) and isinstance(n.value, ast.Call) \
+                and norm(n.value.func) in LIKE_CTORS and n.value.args and not any(k.arg == 'dtype' for k in n.value.keywords):
+            a = n.value.args[0]
+            if isinstance(a, ast.Name) and a.id in alias:
+                conts[n.targets[0].id] = (n.value, alias[a.id])
+    if not conts:
+        return
+    for n in walk_no_nested(fn.node):
+        tgt = None
+        if isinstance(n, ast.Assign):
+            for t in n.targets:
+                if isinstance(t, ast.Subscript) and isinstance(t.value, ast.Name) and t.value.id in conts:
+                    tgt = (t.value.id, n.value)
+        elif isinstance(n, ast.AugAssign):
+            t = n.target
+            root = t.value if isinstance(t, ast.Subscript) else t
+            if isinstance(root, ast.Name) and root.id in conts:
+                tgt = (root.id, n.value)
+        if tgt is None:
+            continue
+        name, val = tgt
+        if isinstance(val, ast.Constant) and isinstance(val.value, (int, bool)):
+            continue
+        # stores of (slices of) the same input keep its dtype legitimately
+        roots = {x.id for x in ast.walk(val) if isinstance(x, ast.Name)}
+        if roots and roots <= {p for p, q in alias.items() if q == conts[name][1]} and not any(isinstance(x, (ast.BinOp, ast.Call)) for x in ast.walk(val)):
+            continue
+        yield conts[name][0], name, conts[name][1]
+        conts.pop(name)
+        if not conts:
+            return
+
+
+def check_input_typed_containers(ctx, rule: str, functions, floor: int = 0) -> int:
+    ctx.rule(rule, 'a result array that receives computed values is not created with np.*_like(<input>) without a dtype: its element type '
+                   'would be the caller\'s (an integer input truncates every computed value)', floor=floor)
+    n = 0
+    for fn in functions:
+        construct = fn.qualname
+        ctx.instance(rule, construct)
+        n += 1
+        hits = list(input_typed_containers(fn))
+        ctx.obligation(rule, construct, not hits, {'containers': [(h[1], h[2]) for h in hits]} if hits else None, nontrivial=bool(hits))
+        for call, name, param in hits[:1]:
+            ctx.violation(rule, construct, '`%s = %s` takes its dtype from the argument `%s` and is then filled with computed values: for an '
+                          'integer `%s` every stored value is truncated to an integer' % (name, norm(call)[:50], param, param),
+                          fn.path, call.lineno, operand='like:' + name)
+    return n
+
+
+# ---------------------------------------------------------------------------------------------------------------
+def flag_test_forms(model, module_paths):
+    """Groups of names that carry the SAME boolean flag through the modules (constructor parameter -> attribute -> read-only
+    property -> attribute of a consumer class), with every test made on a member of the group and its form:
+      'identity'  X is True / X is not True / X is False / X is not False
+      'truth'     bare X in an if / while / not / and / or / conditional expression
+      'equality'  X == True / X != False ...
+    Returns [(sorted group, [(fn, node, member, form)])] for groups that are tested at least once."""
+    parent = {}
+
+    def find(x):
+        parent.setdefault(x, x)
+        while parent[x] != x:
+            parent[x] = parent[parent[x]]
+            x = parent[x]
+        return x
+
+    def union(a, b):
+        parent[find(a)] = find(b)
+
+    fns = []
+    for path in module_paths:
+        mod = model.module(path)
+        fns += [f for c in mod.classes.values() for f in list(c.methods.values()) + list(c.getters.values()) + list(c.setters.values())]
+        fns += list(mod.functions.values())
+    props = {}                       # property name -> attr it returns
+    for fn in fns:
+        sn = fn.self_name
+        if sn is None:
+            continue
+        if fn.kind == 'getter':
+            rets = [n for n in walk_no_nested(fn.node) if isinstance(n, ast.Return) and n.value is not None]
+            if len(rets) == 1 and isinstance(rets[0].value, ast.Attribute) and isinstance(rets[0].value.value, ast.Name) and rets[0].value.value.id == sn:
+                props[fn.name] = rets[0].value.attr
+    for name, attr in props.items():
+        union('.' + name, '.' + attr)
+    for fn in fns:
+        sn = fn.self_name
+        params = set(fn.params)
+        for n in walk_no_nested(fn.node):
+            if isinstance(n, ast.Assign) and len(n.targets) == 1:
+                t, v = n.targets[0], n.value
+                if isinstance(t, ast.Attribute) and isinstance(t.value, ast.Name) and t.value.id == sn:
+                    if isinstance(v, ast.Name) and v.id in params:
+                        union('.' + t.attr, '%s:%s' % (fn.qualname, v.id))
+                    elif isinstance(v, ast.Attribute) and isinstance(v.value, ast.Name):
+                        if '.' + v.attr in parent:
+                            union('.' + t.attr, '.' + v.attr)
+            # keyword pass-through to a super constructor: normalize=normalize
+            if isinstance(n, ast.Call):
+                for k in n.keywords:
+                    if k.arg and isinstance(k.value, ast.Name) and k.value.id in params and k.arg == k.value.id \
+                            and isinstance(n.func, ast.Attribute) and n.func.attr == '__init__':
+                        tgt = None
+                        c = fn.cls
+                        if c is not None:
+                            for b in model.mro(c)[1:]:
+                                m = b.methods.get('__init__')
+                                if m is not None and k.arg in m.params:
+                                    tgt = m
+                                    break
+                        if tgt is not None:
+                            union('%s:%s' % (fn.qualname, k.value.id), '%s:%s' % (tgt.qualname, k.arg))
+    # second pass for attribute-from-attribute links discovered late
+    for fn in fns:
+        sn = fn.self_name
+        for n in walk_no_nested(fn.node):
+            if isinstance(n, ast.Assign) and len(n.targets) == 1:
+                t, v = n.targets[0], n.value
+                if isinstance(t, ast.Attribute) and isinstance(t.value, ast.Name) and t.value.id == sn \
+                        and isinstance(v, ast.Attribute) and isinstance(v.value, ast.Name) and '.' + v.attr in parent:
+                    union('.' + t.attr, '.' + v.attr)
+
+    def member(e, fn):
+        if isinstance(e, ast.Name) and '%s:%s' % (fn.qualname, e.id) in parent:
+            return '%s:%s' % (fn.qualname, e.id)
+        if isinstance(e, ast.Attribute) and isinstance(e.value, ast.Name) and '.' + e.attr in parent:
+            return '.' + e.attr
+        return None
+
+    tests = {}
+    for fn in fns:
+        for n in walk_no_nested(fn.node):
+            if isinstance(n, ast.Compare) and len(n.ops) == 1 and isinstance(n.comparators[0], ast.Constant) and isinstance(n.comparators[0].value, bool):
+                m = member(n.left, fn)
+                if m:
+                    form = 'identity' if isinstance(n.ops[0], (ast.Is, ast.IsNot)) else 'equality'
+                    tests.setdefault(find(m), []).append((fn, n, m, form))
+            cands = []
+            if isinstance(n, (ast.If, ast.While, ast.IfExp)):
+                cands.append(n.test)
+            elif isinstance(n, ast.BoolOp):
+                cands += n.values
+            elif isinstance(n, ast.UnaryOp) and isinstance(n.op, ast.Not):
+                cands.append(n.operand)
+            for e in cands:
+                m = member(e, fn)
+                if m:
+                    tests.setdefault(find(m), []).append((fn, e, m, 'truth'))
+    groups = {}
+    for x in list(parent):
+        groups.setdefault(find(x), set()).add(x)
+    out = []
+    for r, ts in tests.items():
+        seen = set()
+        uniq = []
+        for t in ts:
+            if id(t[1]) not in seen:
+                seen.add(id(t[1]))
+                uniq.append(t)
+        out.append((sorted(groups[r]), uniq))
+    return out
+
+
+def check_flag_tests_agree(ctx, rule: str, module_paths, floor: int = 0) -> int:
+    ctx.rule(rule, 'every test of one boolean flag (constructor parameter, the attribute / property it is stored in, the copies consumers keep) '
+                   'has the same form: `is True` at one site and truthiness at another disagree for truthy non-bool values (np.True_, 1)', floor=floor)
+    n = 0
+    for group, tests in flag_test_forms(ctx.model, module_paths):
+        construct = 'flag:' + ','.join(g.lstrip('.') for g in group if g.startswith('.'))[:60] or group[0]
+        ctx.instance(rule, construct)
+        n += 1
+        forms = {}
+        for fn, node, m, form in tests:
+            forms.setdefault('identity' if form == 'identity' else 'truth', []).append((fn, node))
+        ok = len(forms) <= 1
+        ctx.obligation(rule, construct, ok, {'tests': [('%s:%d' % (fn.qualname, node.lineno), norm(node)[:40], form) for fn, node, m, form in tests]},
+                       nontrivial=len(tests) > 1)
+        if not ok:
+            minority = min(forms.values(), key=len)
+            fn, node = minority[0]
+            other = [x for k, v in forms.items() for x in v if v is not minority][0]
+            ctx.violation(rule, fn.qualname, '%s is tested as `%s` here but as `%s` in %s: a truthy value that is not the object True '
+                          '(np.True_, 1) is taken as set by one site and as unset by the other' % (construct, norm(node)[:40], norm(other[1])[:40], other[0].qualname),
+                          fn.path, node.lineno, operand=construct)
     return n
